@@ -251,7 +251,13 @@ impl Substream {
             substream,
             codec,
             substream_id,
-            read_buffer: BytesMut::zeroed(1024),
+            // The identity codec reads `payload_size` bytes directly into `read_buffer`, so the
+            // initial buffer must be able to hold a whole frame.
+            read_buffer: match codec {
+                ProtocolCodec::Identity(payload_size) =>
+                    BytesMut::zeroed(std::cmp::max(payload_size, 1024)),
+                _ => BytesMut::zeroed(1024),
+            },
             offset: 0usize,
             pending_frames: VecDeque::new(),
             current_frame_size: None,
